@@ -140,3 +140,17 @@ void *vf_memset(void *d, int c, uint64_t n)
     }
     return d;
 }
+
+/* memcmp/bcmp as the translated libstdc++ code calls them (std::equal / std::lexicographical_compare on byte ranges):
+ * exact byte-wise semantics; both ranges are bounds-checked.  Units using it unwind this loop (bounded length). */
+uint32_t f_memcmp(uint8_t *a, uint8_t *b, uint64_t n)
+{
+    __CPROVER_assert(n == 0 || __CPROVER_r_ok(a, n), "memcmp: first range readable");
+    __CPROVER_assert(n == 0 || __CPROVER_r_ok(b, n), "memcmp: second range readable");
+    for (uint64_t i = 0; i < n; i++)
+    {
+        if (a[i] != b[i]) return a[i] < b[i] ? (uint32_t)-1 : 1u;
+    }
+    return 0;
+}
+uint32_t f_bcmp(uint8_t *a, uint8_t *b, uint64_t n) { return f_memcmp(a, b, n); }
